@@ -59,15 +59,17 @@ def fmt(p) -> str:
 
 
 def corner_positions(op: dict) -> List[List[float]]:
-    """Corner points of a lattice cell under one of the 24 numberings."""
+    """Corner points of a lattice cell under one of the 24 numberings, in the frame of the model
+    (`frame` = [origin, scale]: some models are drawn in millimetres far from the origin)."""
     cell, rot = op["cell"], ROT[op["rot"]]
+    origin, scale = op.get("frame", [[0.0, 0.0, 0.0], 1.0])
     pts = []
     for lc in LOCAL:
         g = [0, 0, 0]
         for a in range(3):
             axis, sign = rot[a]
             g[axis] = lc[a] if sign == 1 else 1 - lc[a]
-        pts.append([(cell[d] + g[d]) * SPACING[d] for d in range(3)])
+        pts.append([origin[d] + scale * (cell[d] + g[d]) * SPACING[d] for d in range(3)])
     return pts
 
 
@@ -81,6 +83,36 @@ def local_chops(op: dict, counts: dict) -> List[List[List]]:
         ch = counts[str(axis)][op["cell"][axis]]
         out.append(list(ch) if sign == 1 else list(reversed(ch)))
     return out
+
+
+def entities_of(case: dict) -> List[List[int]]:
+    """depot entities as lists of operation indices (older cases: every operation is an entity of its own)"""
+    return case.get("entities") or [[i] for i in range(len(case["ops"]))]
+
+
+def make_group(ops: list):
+    """A depot entity holding several operations: a minimal `Shape`."""
+    import numpy as np
+
+    from classy_blocks.construct.shape import Shape
+
+    class OpGroup(Shape):
+        def __init__(self, operations):
+            self._operations = list(operations)
+
+        @property
+        def operations(self):
+            return self._operations
+
+        @property
+        def grid(self):
+            return [self._operations]
+
+        @property
+        def center(self):
+            return np.average([o.center for o in self._operations], axis=0)
+
+    return OpGroup(ops)
 
 
 # ----------------------------------------------------------------------------------------- building real operations
@@ -248,6 +280,10 @@ class C12(core.Check):
                 continue
             cells.append(tuple(c))
         names = ["pa", "pb", "pc", "pd"]
+        # a third of the models is drawn large and far from the origin (e.g. millimetres at x = 1000)
+        frame = [[0.0, 0.0, 0.0], 1.0]
+        if rng.random() < 0.35:
+            frame = [[rng.choice([1000.0, -2500.0, 700.0]), rng.choice([0.0, 300.0]), rng.choice([0.0, -1200.0])], 100.0]
         counts = {}
         for d in range(3):
             per = []
@@ -259,7 +295,7 @@ class C12(core.Check):
             counts[str(d)] = per
         ops = []
         for i, cell in enumerate(cells):
-            spec: Dict[str, Any] = {"id": i, "cell": list(cell), "rot": rng.randrange(24)}
+            spec: Dict[str, Any] = {"id": i, "cell": list(cell), "rot": rng.randrange(24), "frame": frame}
             k = rng.choice((0, 1, 1, 2, 3))
             spec["patches"] = {s: rng.choice(names) for s in rng.sample(SIDES, k)}
             if rng.random() < 0.3:
@@ -275,32 +311,45 @@ class C12(core.Check):
                     # push the mid point off the chord along a direction the edge does not run in
                     along = max(range(3), key=lambda d: abs(pos[a][d] - pos[b][d]))
                     off = (along + 1 + rng.randrange(2)) % 3
-                    mid[off] += rng.choice((-1, 1)) * (0.0625 + 0.015625 * rng.randrange(4)) + 0.001 * (i + 1)
+                    mid[off] += frame[1] * (rng.choice((-1, 1)) * (0.0625 + 0.015625 * rng.randrange(4)) + 0.001 * (i + 1))
                     arcs[slot] = [round(x, 6) for x in mid]
                 spec["arcs"] = arcs
             if rng.random() < 0.2:
                 spec["zone"] = rng.choice(["z1", "z2"])
             ops.append(spec)
-        return {"ops": ops, "counts": counts}
+        # depot entities: consecutive operations, alone (an Operation) or grouped (a Shape holding several operations)
+        entities: List[List[int]] = []
+        i = 0
+        while i < n_ops:
+            k = 1 if rng.random() < 0.5 else rng.randint(2, 4)
+            entities.append(list(range(i, min(n_ops, i + k))))
+            i += k
+        return {"ops": ops, "counts": counts, "entities": entities, "frame": frame}
 
     def _history(self, rng: random.Random, model: dict, max_len: int) -> List[list]:
-        n = len(model["ops"])
+        ents = model["entities"]
+        origin, scale = model["frame"]
         names = ["pa", "pb", "pc", "pd", "px"]
         steps: List[list] = []
-        added: List[int] = []
+        added: List[int] = []  # operations in the depot
+        n_ent = 0  # entities added so far
         move_no = 0
-        first = rng.randint(1, n)
-        for i in range(first):
-            steps.append(["add", i])
-            added.append(i)
+        first = rng.randint(1, len(ents))
+        for _ in range(first):
+            steps.append(["add", n_ent])
+            added += ents[n_ent]
+            n_ent += 1
         length = rng.randint(4, max_len)
         while len(steps) < length:
             r = rng.random()
-            if r < 0.08 and len(added) < n:
-                steps.append(["add", len(added)])
-                added.append(len(added))
+            if r < 0.08 and n_ent < len(ents):
+                steps.append(["add", n_ent])
+                added += ents[n_ent]
+                n_ent += 1
             elif r < 0.10 and added:
-                steps.append(["add", rng.choice(added)])  # the same object once more
+                singles = [e for e in range(n_ent) if len(ents[e]) == 1]
+                if singles:
+                    steps.append(["add", rng.choice(singles)])  # the same object once more
             elif r < 0.19 and added:
                 steps.append(["del", rng.choice(added)])
             elif r < 0.27:
@@ -311,15 +360,23 @@ class C12(core.Check):
                     steps.append(["asm"])
             elif r < 0.47:
                 steps.append(["bkp"])
-            elif r < 0.57:
+            elif r < 0.52:
                 move_no += 1
                 p = [
                     round(rng.uniform(-0.4, 3.4) + 0.0137 * move_no, 3) + 0.0005,
                     round(rng.uniform(-0.4, 3.4), 3) + 0.0005,
                     round(rng.uniform(-0.4, 2.4), 3) + 0.0005 + 0.001 * move_no,
                 ]
-                steps.append(["mv", rng.randrange(1000), [round(x, 6) for x in p]])
+                steps.append(["mv", rng.randrange(1000), [round(origin[d] + scale * p[d], 6) for d in range(3)]])
                 if rng.random() < 0.6:
+                    steps.append(["bkp"])
+            elif r < 0.57:
+                # a small adjustment of one coordinate (a few thousandths, whatever the size of the model)
+                move_no += 1
+                delta = [0.0, 0.0, 0.0]
+                delta[rng.randrange(3)] = rng.choice((-1, 1)) * (0.002 + 0.001 * (move_no % 7))
+                steps.append(["nudge", rng.randrange(1000), delta])
+                if rng.random() < 0.8:
                     steps.append(["bkp"])
             elif r < 0.67:
                 st = rng.choice([None, None, [], ["neighbourPatch pb"], ["transform none", "k v"]])
@@ -346,6 +403,7 @@ class C12(core.Check):
         # rejected calls / boundary
         for _ in range(12 if tier == "quick" else 120):
             model = self._model(rng, rng.randint(1, 3))
+            model.pop("entities")
             k = rng.randrange(5)
             if k == 0:
                 steps = [["bkp"], ["add", 0], ["bkp"], ["wr"]]
@@ -380,6 +438,15 @@ class C12(core.Check):
                 ops[i] = build_op(specs[i], corner_positions(specs[i]), chops)
             return ops[i]
 
+        ents = entities_of(case)
+        ent_objs: Dict[int, Any] = {}
+
+        def get_entity(e: int):
+            if e not in ent_objs:
+                members = [get_op(i) for i in ents[e]]
+                ent_objs[e] = members[0] if len(members) == 1 else make_group(members)
+            return ent_objs[e]
+
         mesh = cb.Mesh()
         obs: List[Any] = []
         fd, path = tempfile.mkstemp(prefix="cbv-c12-")
@@ -388,7 +455,7 @@ class C12(core.Check):
             for st in case["steps"]:
                 o: Any = "."
                 if st[0] == "add":
-                    mesh.add(get_op(st[1]))
+                    mesh.add(get_entity(st[1]))
                 elif st[0] == "del":
                     mesh.delete(get_op(st[1]))
                 elif st[0] == "asm":
@@ -409,6 +476,14 @@ class C12(core.Check):
                         v = mesh.vertices[st[1] % nv]
                         o = {"moved": [float(x) for x in v.position], "index": st[1] % nv}
                         v.move_to(st[2])
+                elif st[0] == "nudge":
+                    nv = len(mesh.vertices)
+                    if nv:
+                        v = mesh.vertices[st[1] % nv]
+                        old = [float(x) for x in v.position]
+                        new = [old[d] + st[2][d] for d in range(3)]
+                        o = {"moved": old, "index": st[1] % nv, "to": new}
+                        v.move_to(new)
                 elif st[0] == "mod":
                     mesh.modify_patch(st[1], st[2], None if st[3] is None else list(st[3]))
                 elif st[0] == "def":
@@ -471,9 +546,10 @@ class C12(core.Check):
                 n_vertices = len({k for i in asm_ops for k in corner_keys(i)})
 
             if st[0] == "add":
-                if st[1] in depot:
-                    dup = True
-                depot.append(st[1])
+                for i in entities_of(case)[st[1]]:
+                    if i in depot:
+                        dup = True
+                    depot.append(i)
                 pending = pending or assembled
             elif st[0] == "del":
                 deleted.add(st[1])
@@ -502,6 +578,9 @@ class C12(core.Check):
             elif st[0] == "mv":
                 if isinstance(o, dict) and "moved" in o:
                     moves.append((o["moved"], st[2]))
+            elif st[0] == "nudge":
+                if isinstance(o, dict) and "moved" in o:
+                    moves.append((o["moved"], o["to"]))
             elif st[0] == "bkp":
                 if isinstance(o, dict) and "ok" in o:
                     # expected: corners of the operations that have a block follow the moved vertices
@@ -585,9 +664,11 @@ class C12(core.Check):
         for spec in case["ops"]:
             for p in corner_positions(spec):
                 lid(p)
-        for st in case["steps"]:
+        for st, o in zip(case["steps"], (impl or {}).get("obs", [None] * len(case["steps"]))):
             if st[0] == "mv":
                 lid(st[2])
+            if st[0] == "nudge" and isinstance(o, dict) and "to" in o:
+                lid(o["to"])
         arcs: Dict[str, str] = {}
         for spec in case["ops"]:
             for slot, point in sorted(spec.get("arcs", {}).items()):
@@ -598,26 +679,38 @@ class C12(core.Check):
         loc, arcs = self._tables(case, impl)
         toks = []
         seen = set()
-        for st in case["steps"]:
+        ents = entities_of(case)
+        obs = (impl or {}).get("obs", [None] * len(case["steps"]))
+
+        def op_fields(spec: dict) -> str:
+            cs = ",".join(str(loc[fmt(p)]) for p in corner_positions(spec))
+            pat = spec.get("patches", {})
+            ps = ",".join(pat.get(s, "-") for s in ["bottom", "top", "front", "right", "back", "left"])
+            prj = spec.get("proj", {})
+            js = ",".join(prj.get(s, "-") for s in ["bottom", "top", "front", "right", "back", "left"])
+            cp = spec.get("cproj", {})
+            cps = ",".join("+".join(cp[str(c)]) if str(c) in cp else "-" for c in range(8))
+            ar = spec.get("arcs", {})
+            es = ",".join(arcs[fmt(ar[s])] if s in ar else "-" for s in SLOTS)
+            chops = local_chops(spec, case["counts"])
+            if "nochop" in spec:
+                chops[spec["nochop"]] = []
+            chs = ",".join("+".join(f"{r}x{c}" for r, c in ch) if ch else "-" for ch in chops)
+            return "!".join([str(spec["id"]), cs, ps, js, cps, es, chs, spec.get("zone") or "-"])
+
+        for st, o in zip(case["steps"], obs):
             if st[0] == "add" and st[1] in seen:
-                toks.append(f"again!{st[1]}")  # the same python object once more
+                toks.append(f"again!{ents[st[1]][0]}")  # the same python object (a single operation) once more
             elif st[0] == "add":
                 seen.add(st[1])
-                spec = case["ops"][st[1]]
-                cs = ",".join(str(loc[fmt(p)]) for p in corner_positions(spec))
-                pat = spec.get("patches", {})
-                ps = ",".join(pat.get(s, "-") for s in ["bottom", "top", "front", "right", "back", "left"])
-                prj = spec.get("proj", {})
-                js = ",".join(prj.get(s, "-") for s in ["bottom", "top", "front", "right", "back", "left"])
-                cp = spec.get("cproj", {})
-                cps = ",".join("+".join(cp[str(c)]) if str(c) in cp else "-" for c in range(8))
-                ar = spec.get("arcs", {})
-                es = ",".join(arcs[fmt(ar[s])] if s in ar else "-" for s in SLOTS)
-                chops = local_chops(spec, case["counts"])
-                if "nochop" in spec:
-                    chops[spec["nochop"]] = []
-                chs = ",".join("+".join(f"{r}x{c}" for r, c in ch) if ch else "-" for ch in chops)
-                toks.append("!".join(["add", str(spec["id"]), cs, ps, js, cps, es, chs, spec.get("zone") or "-"]))
+                members = ents[st[1]]
+                if len(members) == 1:
+                    toks.append("add!" + op_fields(case["ops"][members[0]]))
+                else:
+                    toks.append("ent@" + "@".join(op_fields(case["ops"][i]) for i in members))
+            elif st[0] == "nudge":
+                to = loc[fmt(o["to"])] if isinstance(o, dict) and "to" in o else 0
+                toks.append(f"mv!{st[1]}!{to}")
             elif st[0] == "del":
                 toks.append(f"del!{st[1]}")
             elif st[0] in ("asm", "clr", "bkp", "wr"):
@@ -681,7 +774,7 @@ class C12(core.Check):
                     depot = []
                     for s in case["steps"][: n + 1]:
                         if s[0] == "add":
-                            depot.append(s[1])
+                            depot += entities_of(case)[s[1]]
                     want = "ok:" + ";".join(
                         f"{i}=" + ",".join(str(loc.get(fmt(p), "?" + fmt(p))) for p in o["ok"][str(i)]) for i in depot
                     )
@@ -827,7 +920,7 @@ class C12(core.Check):
     def nontrivial_key(self, case, impl):
         if not any(isinstance(o, dict) and "text" in o for o in impl["obs"]):
             return None if case["kind"] == "hist" else "reject:" + json.dumps(case["steps"])
-        return json.dumps({k: case[k] for k in ("ops", "counts", "steps")}, sort_keys=True)
+        return json.dumps({k: case.get(k) for k in ("ops", "counts", "steps", "entities")}, sort_keys=True)
 
     def classify(self, case, impl):
         calls = sorted({s[0] for s in case["steps"]})
@@ -835,7 +928,11 @@ class C12(core.Check):
         key = case["kind"] + ":" + f"{len(case['ops'])}ops"
         if errs:
             key += ":" + "+".join(errs)
-        for flag in ("bkp", "clr", "del", "mv", "mrg"):
+        if any(len(e) > 1 for e in entities_of(case)):
+            key += ":groups"
+        if case.get("frame", [[0, 0, 0], 1.0])[1] != 1.0:
+            key += ":far"
+        for flag in ("bkp", "clr", "del", "mv", "nudge", "mrg"):
             if flag in calls:
                 key += ":" + flag
         return key
